@@ -366,6 +366,23 @@ def is_exact_cut_multiset(G, live, part):
     return False
 
 
+def option_changes_answer(info, opts_on, opts_off):
+    """search for a failing input behind a broken premise: does the option change solvability / the number of routes on this instance?"""
+    try:
+        a = zoo.construct(info, opts_on); a.solve()
+        b = zoo.construct(info, opts_off); b.solve()
+    except Exception as e:
+        return f"raised {e!r}"
+    if a.is_solved() != b.is_solved():
+        return f"solved {a.is_solved()} with the option, {b.is_solved()} without"
+    if a.is_solved():
+        key = "walks" if "walks" in a.get_solution() else "paths"
+        na, nb = len(a.get_solution()[key]), len(b.get_solution()[key])
+        if na != nb:
+            return f"{na} routes with the option, {nb} without"
+    return None
+
+
 def mgs_premises(ctx, n):
     """Premises of C05_min_gen_set_option_is_sound, checked on the objects the code builds: whenever MinFlowDecomp consults
     MinGenSet for its lower bound, (a) the s-t graph has the shape the theorem assumes (nodes attached to the synthetic source
@@ -457,8 +474,10 @@ def mgs_premises(ctx, n):
             ctx.count("E2_min_gen_set_premises", "partition_constraints_checked", len(c["partition_constraints"]))
         ctx.count("E2_min_gen_set_premises", "premises_checked")
         if problems:
+            diff = option_changes_answer(info, opts, dict(opts, use_min_gen_set_lowerbound=False))
+            rep["failing_input_search"] = diff or "the option does not change the answer on this instance"
             ctx.report("the MinGenSet instance built for the lower bound does not meet the premises of C05_min_gen_set_option_is_sound: "
-                       + "; ".join(problems), rep)
+                       + "; ".join(problems) + (f" -- and the answer changes: {diff}" if diff else ""), rep, concrete=bool(diff))
 
 
 def mgs_premises_cycles(ctx, n):
@@ -529,8 +548,11 @@ def mgs_premises_cycles(ctx, n):
                             "of an admissible decomposition may repeat an edge more often than MinGenSet may use an element")
         ctx.count("E2_min_gen_set_premises", "cyclic_premises_checked")
         if problems:
+            diff = option_changes_answer(info, opts, {"use_min_gen_set_lowerbound": False})
+            rep["failing_input_search"] = diff or "the option does not change the answer on this instance"
             ctx.report("the MinGenSet instance built for the lower bound of MinFlowDecompCycles does not meet the premises of "
-                       "C05_min_gen_set_option_is_sound_for_walks: " + "; ".join(problems), rep)
+                       "C05_min_gen_set_option_is_sound_for_walks: " + "; ".join(problems) + (f" -- and the answer changes: {diff}" if diff else ""),
+                       rep, concrete=bool(diff))
 
 
 def length_safety(ctx, n):
